@@ -24,18 +24,23 @@ ASSUME = [
 
 # the model of the current code (pending_dials is a queue per peer since /repo e9eba69) must satisfy the untagged
 # quiescence obligation: nothing is excused by a known-defect tag
-MC_LINES = ["SPECIFICATION Spec", "INVARIANTS MonOK QuiesceStrict BooksOK BoundOK", "VIEW View", "CHECK_DEADLOCK FALSE"]
+MC_LINES = ["SPECIFICATION Spec", "INVARIANTS MonOK QuiesceStrict BooksOK BoundOK DeliveredOK", "VIEW View", "CHECK_DEADLOCK FALSE"]
 BASEC = dict(MaxConc=1, MaxConn=2, MaxCancel=1, DialOpts="<- BothOpts", Fixed="<- FixedD9", Wedge=False, ImmErr=True, Foreign=True,
-             Bugs="<- NoBugs", KeepHist=False)
+             Bugs="<- NoBugs", Idle=False, Faults=True, KeepHist=False)
+# connection-level view of responses (C04 clause lifted to the connection): no link faults, the responder's
+# connection task may exit on idle (Drain; Close), the monitor judges "reported complete => delivered"
+IDLEC = dict(BASEC, Idle=True, Faults=False)
 MV = ["CONSTANTS", "  p2 = p2", "  p3 = p3"]
 
 
 def mc_configs(ctx):
     one = dict(BASEC, Peers="<- OnePeer", MaxReq=3)
     two = dict(BASEC, Peers="<- TwoPeers", MaxReq=2)
+    idle = ("idle-close-1peer-2req", dict(IDLEC, Peers="<- OnePeer", MaxReq=2), MC_LINES)
     if ctx.quick():
-        return [("1peer-3req", one, MC_LINES), ("2peers-2req", two, MC_LINES + ["SYMMETRY Sym"])]
-    return [("1peer-3req", one, MC_LINES), ("2peers-2req", two, MC_LINES + ["SYMMETRY Sym"]),
+        return [("1peer-3req", one, MC_LINES), ("2peers-2req", two, MC_LINES + ["SYMMETRY Sym"]), idle]
+    return [("1peer-3req", one, MC_LINES), ("2peers-2req", two, MC_LINES + ["SYMMETRY Sym"]), idle,
+            ("idle-close-2peers-2req", dict(IDLEC, Peers="<- TwoPeers", MaxReq=2), MC_LINES + ["SYMMETRY Sym"]),
             ("1peer-3req-nolimit-2cancel", dict(one, MaxConc="<- NoLimit", MaxCancel=2, DialOpts="<- DialOnly"), MC_LINES),
             ("2peers-3req-nocancel", dict(BASEC, Peers="<- TwoPeers", MaxReq=3, MaxCancel=0, DialOpts="<- DialOnly", MaxConn=2),
              MC_LINES + ["SYMMETRY Sym"])]
@@ -202,6 +207,11 @@ def check(ctx):
 
 def replay(ctx, path):
     obj = json.load(open(path))
+    for x in obj["segment"]:     # executions recorded before these fields existed
+        if x.get("e") == "reset":
+            x.setdefault("c04", False)
+        if x.get("e") == "answer":
+            x.setdefault("fb", False)
     seg = [json.dumps(x, separators=(",", ":")) for x in obj["segment"]]
     _, _, rej = validate_all(ctx, "ReqRespTrace.tla", "ReqRespTrace.cfg", seg)
     log("replay of the recorded execution: %s" % ("rejected: %s" % rej[0].reason if rej else "accepted"))
@@ -234,6 +244,16 @@ def selftest(ctx):
     log("selftest model: request context kept in pending_dials after an immediate dial error -> %s" %
         ("MonOK violated: second terminal event (expected)" if found else "NOT violated"))
     ok &= found
+    # connection-level C04 clause: the connection task exits on idle without draining / the requester prefers the
+    # close over a response that has already arrived
+    for bug, what in (("NoDrain", "connection task exits on idle without draining yamux"),
+                      ("CloseFirst", "on_connection_closed fails a request whose response has already arrived")):
+        r = tlc_mc(ctx, "ReqRespMC.tla", write_cfg(ctx, "neg_%s.cfg" % bug, dict(IDLEC, Peers="<- OnePeer", MaxReq=2, Bugs="<- " + bug),
+                                                   ["SPECIFICATION Spec", "INVARIANTS MonOK", "VIEW View", "CHECK_DEADLOCK FALSE"] + MV),
+                   workers=4, timeout=600, expect_violation=True)
+        found = (not r["ok"]) and "Invariant MonOK is violated" in r["out"] and "response reported sent but lost" in r["out"]
+        log("selftest model: %s -> %s" % (what, "MonOK violated: response reported sent but lost (expected)" if found else "NOT violated"))
+        ok &= found
     # responder side: the bound applied per remote peer instead of globally must break the monitor's bound rule
     r = tlc_mc(ctx, "ReqRespBoundMC.tla", write_cfg(ctx, "negb.cfg", dict(Requesters={1, 2}, K=2, Bound=1, PerPeer=True), B_LINES),
                workers=4, timeout=600, expect_violation=True)
@@ -246,7 +266,8 @@ def selftest(ctx):
         ("on_substream_event does not remove the request from `active` (second terminal event on close)",
          "         /\\ active' = [active EXCEPT ![p] = @ \\ {r}]\n         /\\ mon' = CASE res", "         /\\ active' = active\n         /\\ mon' = CASE res", "MonOK"),
         ("on_connection_closed forgets the active requests (silence)",
-         "       /\\ mon' = FailEvs(mon, active[p])", "       /\\ mon' = mon", "QuiesceOK"),
+         "       /\\ mon' = FailEvs(FoldSet(LAMBDA r, acc : MonResp(acc, R, r, A(r)), mon, ar), active[p] \\ (ar \\cup cr))",
+         "       /\\ mon' = FoldSet(LAMBDA r, acc : MonResp(acc, R, r, A(r)), mon, ar)", "QuiesceStrict"),
         ("responder bound compares with > instead of >=",
          "Cardinality(inb[p]) >= MaxConc", "Cardinality(inb[p]) > MaxConc", "MonOK"),
         ("a canceled request still reports an event (fine) and a response is delivered to the wrong request id",
